@@ -317,6 +317,242 @@ theorem Writer.flushAll_spec (w : Writer) (h : w.Inv) :
       omega
   · exact ⟨0, .inr ⟨by omega, by unfold Writer.flushAll; rw [if_neg hc]⟩⟩
 
+/-! ### derived operations -/
+
+/-- `read_u2`: `match (self.next(), self.next())` — both calls are made -/
+def Reader.readU2 (r : Reader) : Option ((Bool × Bool) × Reader) :=
+  match r.next with
+  | none => none
+  | some (b0, r1) => match r1.next with
+    | none => none
+    | some (b1, r2) => some ((b0, b1), r2)
+
+theorem Reader.readU2_spec (r : Reader) (hr : r.readBits ≤ 8) :
+    match r.readU2 with
+    | some ((b0, b1), r') => r.remaining = b0 :: b1 :: r'.remaining ∧ r'.total = r.total + 2
+    | none => r.remaining.length < 2 := by
+  have h1 := r.next_spec hr
+  cases hn : r.next with
+  | none =>
+    rw [hn] at h1
+    have : r.readU2 = none := by simp [Reader.readU2, hn]
+    rw [this]; simp [h1]
+  | some p =>
+    obtain ⟨b0, r1⟩ := p
+    rw [hn] at h1
+    obtain ⟨e1, t1, _, hr1⟩ := h1
+    have h2 := r1.next_spec hr1
+    cases hn2 : r1.next with
+    | none =>
+      rw [hn2] at h2
+      have : r.readU2 = none := by simp [Reader.readU2, hn, hn2]
+      rw [this]; simp [e1, h2]
+    | some p2 =>
+      obtain ⟨b1, r2⟩ := p2
+      rw [hn2] at h2
+      obtain ⟨e2, t2, _, _⟩ := h2
+      have : r.readU2 = some ((b0, b1), r2) := by simp [Reader.readU2, hn, hn2]
+      rw [this]
+      exact ⟨by rw [e1, e2], by omega⟩
+
+/-- a sequence of `write_bit` -/
+def Writer.writeBits (w : Writer) : List Bool → Writer
+  | [] => w
+  | b :: bs => (w.writeBit b).writeBits bs
+
+theorem Writer.writeBits_spec : ∀ (bs : List Bool) (w : Writer), w.Inv →
+    (w.writeBits bs).written = w.written ++ bs ∧ (w.writeBits bs).total = w.total + bs.length ∧
+    (w.writeBits bs).Inv
+  | [], w, h => ⟨by simp [Writer.writeBits], rfl, h⟩
+  | b :: bs, w, h => by
+    obtain ⟨h1, h2, h3⟩ := w.writeBit_spec b h
+    obtain ⟨i1, i2, i3⟩ := Writer.writeBits_spec bs (w.writeBit b) h3
+    refine ⟨?_, ?_, i3⟩
+    · simp only [Writer.writeBits]; rw [i1, h1]; simp
+    · simp only [Writer.writeBits]; rw [i2, h2]; simp; omega
+
+/-- `write_bits_be(n, len)`: the `len` least significant bits of `n`, most significant first -/
+def bitsBE (n len : Nat) : List Bool := (List.range len).map fun i => n.testBit (len - 1 - i)
+
+def Writer.writeBitsBE (w : Writer) (n len : Nat) : Writer := w.writeBits (bitsBE n len)
+
+theorem Writer.writeBitsBE_spec (w : Writer) (n len : Nat) (h : w.Inv) :
+    (w.writeBitsBE n len).written = w.written ++ bitsBE n len ∧
+    (w.writeBitsBE n len).total = w.total + len := by
+  obtain ⟨h1, h2, _⟩ := Writer.writeBits_spec (bitsBE n len) w h
+  exact ⟨h1, by unfold Writer.writeBitsBE; rw [h2]; simp [bitsBE]⟩
+
+theorem Writer.new_inv : Writer.new.Inv := ⟨by simp [Writer.new], by simp [Writer.new], by simp [Writer.new]⟩
+
+/-- `collect_bits` / `write_to_vec`: write everything, flush -/
+def collectBits (bs : List Bool) : List Nat × Nat := (((Writer.new.writeBits bs).flushAll).out, bs.length)
+
+/-- **writer then reader**: the collected bytes are the bits followed by zero padding to a byte
+boundary -/
+theorem collectBits_spec (bs : List Bool) :
+    ∃ pad, bitsOf (collectBits bs).1 = bs ++ List.replicate pad false ∧ pad < 8 ∧ (bs.length + pad) % 8 = 0 := by
+  obtain ⟨h1, _, h3⟩ := Writer.writeBits_spec bs Writer.new Writer.new_inv
+  have hw0 : Writer.new.written = [] := by simp [Writer.new, Writer.written, bitsOf]
+  rw [hw0, List.nil_append] at h1
+  obtain ⟨pad, hf⟩ := (Writer.new.writeBits bs).flushAll_spec h3
+  rcases hf with ⟨e, hp, hm⟩ | ⟨hc, he⟩
+  · exact ⟨pad, by simpa [collectBits, h1] using e, hp, by rw [h1] at hm; exact hm⟩
+  · refine ⟨0, ?_, by omega, ?_⟩
+    · simp only [collectBits, he, List.replicate_zero, List.append_nil]
+      have : (Writer.new.writeBits bs).written = bitsOf (Writer.new.writeBits bs).out := by
+        simp [Writer.written, hc]
+      rw [← this, h1]
+    · have hlen : ∀ l : List Nat, (bitsOf l).length = 8 * l.length := by
+        intro l; induction l with
+        | nil => rfl
+        | cons x xs ih => simp [bitsOf, ih]; omega
+      have : bs.length = 8 * (Writer.new.writeBits bs).out.length := by
+        rw [← hlen]
+        have hh : (Writer.new.writeBits bs).written = bitsOf (Writer.new.writeBits bs).out := by
+          simp [Writer.written, hc]
+        rw [← hh, h1]
+      omega
+
+/-- reading `k` bits one by one -/
+def Reader.take : Nat → Reader → List Bool × Reader
+  | 0, r => ([], r)
+  | k+1, r => match r.next with
+    | none => ([], r)
+    | some (b, r') => let (bs, r'') := Reader.take k r'; (b :: bs, r'')
+
+theorem Reader.take_spec : ∀ (k : Nat) (r : Reader), r.readBits ≤ 8 →
+    (Reader.take k r).1 = r.remaining.take k
+  | 0, r, _ => by simp [Reader.take]
+  | k+1, r, hr => by
+    have h1 := r.next_spec hr
+    simp only [Reader.take]
+    cases hn : r.next with
+    | none => rw [hn] at h1; simp [h1]
+    | some p =>
+      obtain ⟨b, r'⟩ := p
+      rw [hn] at h1
+      obtain ⟨e1, _, _, hr'⟩ := h1
+      simp only []
+      rw [e1, List.take_succ_cons, ← Reader.take_spec k r' hr']
+
+/-- **round trip**: what was written, flushed and read back is what was written (then zero padding) -/
+theorem write_read (bs : List Bool) :
+    (Reader.take bs.length (Reader.new (collectBits bs).1)).1 = bs := by
+  obtain ⟨pad, h, _, _⟩ := collectBits_spec bs
+  rw [Reader.take_spec _ _ (by simp [Reader.new])]
+  simp only [Reader.new, Reader.remaining, drop_byteBits_8, List.nil_append]
+  rw [h]; simp
+
+/-! ### windows (with the bit budget of the repaired `byte_slice_window`) -/
+
+structure LReader where
+  r : Reader
+  limit : Option Nat      -- `remaining`: `none` = `usize::MAX`
+
+def LReader.remaining (l : LReader) : List Bool :=
+  match l.limit with
+  | none => l.r.remaining
+  | some k => l.r.remaining.take k
+
+def LReader.next (l : LReader) : Option (Bool × LReader) :=
+  match l.limit with
+  | some 0 => none
+  | lim => match l.r.next with
+    | none => none
+    | some (b, r') => some (b, ⟨r', lim.map (· - 1)⟩)
+
+theorem LReader.next_spec (l : LReader) (hr : l.r.readBits ≤ 8) :
+    match l.next with
+    | some (b, l') => l.remaining = b :: l'.remaining ∧ l'.r.readBits ≤ 8
+    | none => l.remaining = [] := by
+  have h1 := l.r.next_spec hr
+  unfold LReader.next LReader.remaining
+  cases hl : l.limit with
+  | none =>
+    simp only []
+    cases hn : l.r.next with
+    | none => rw [hn] at h1; simpa using h1
+    | some p => obtain ⟨b, r'⟩ := p; rw [hn] at h1; exact ⟨by simpa using h1.1, h1.2.2.2⟩
+  | some k =>
+    cases k with
+    | zero => simp
+    | succ k =>
+      simp only []
+      cases hn : l.r.next with
+      | none => rw [hn] at h1; simp [h1]
+      | some p =>
+        obtain ⟨b, r'⟩ := p
+        rw [hn] at h1
+        refine ⟨?_, h1.2.2.2⟩
+        simp [h1.1]
+
+theorem bitsOf_length (l : List Nat) : (bitsOf l).length = 8 * l.length := by
+  induction l with
+  | nil => rfl
+  | cons x xs ih => simp [bitsOf, ih]; omega
+
+theorem bitsOf_drop : ∀ (k : Nat) (l : List Nat), bitsOf (l.drop k) = (bitsOf l).drop (8 * k)
+  | 0, l => by simp
+  | k+1, [] => by simp [bitsOf]
+  | k+1, x :: xs => by
+    simp only [List.drop_succ_cons, bitsOf]
+    rw [bitsOf_drop k xs, show 8 * (k + 1) = 8 + 8 * k by omega, ← List.drop_drop,
+      List.drop_left' (byteBits_length x)]
+
+theorem bitsOf_take : ∀ (k : Nat) (l : List Nat), bitsOf (l.take k) = (bitsOf l).take (8 * k)
+  | 0, l => by simp [bitsOf]
+  | k+1, [] => by simp [bitsOf]
+  | k+1, x :: xs => by
+    simp only [List.take_succ_cons, bitsOf]
+    rw [bitsOf_take k xs, show 8 * (k + 1) = 8 + 8 * k by omega, List.take_append,
+      byteBits_length, List.take_of_length_le (l := byteBits x) (by simp)]
+    congr 2
+    omega
+
+/-- `byte_slice_window(sl, start, end)` -/
+def window (bytes : List Nat) (s e : Nat) : LReader :=
+  let sl := (bytes.take ((e + 7) / 8)).drop (s / 8)
+  if s % 8 = 0 then ⟨⟨sl, 0, 8, 0⟩, some (e - s)⟩
+  else match sl with
+    | [] => ⟨⟨[], 0, 8, 0⟩, some (e - s)⟩     -- the Rust code would panic on `unwrap`
+    | b :: rest => ⟨⟨rest, b, s % 8, 0⟩, some (e - s)⟩
+
+/-- **window**: exactly the bits `start .. end` of the slice -/
+theorem window_exact (bytes : List Nat) (s e : Nat) (hse : s ≤ e) (he : e ≤ 8 * bytes.length) :
+    (window bytes s e).remaining = ((bitsOf bytes).drop s).take (e - s) := by
+  have key : ∀ (sl : List Nat), sl = (bytes.take ((e + 7) / 8)).drop (s / 8) →
+      ((bitsOf sl).drop (s % 8)).take (e - s) = ((bitsOf bytes).drop s).take (e - s) := by
+    intro sl hsl
+    rw [hsl, bitsOf_drop, bitsOf_take, List.drop_drop, show 8 * (s / 8) + s % 8 = s by omega]
+    rw [List.drop_take, List.take_take]
+    congr 1
+    omega
+  unfold window
+  simp only []
+  by_cases h0 : s % 8 = 0
+  · rw [if_pos h0]
+    simp only [LReader.remaining, Reader.remaining, drop_byteBits_8, List.nil_append]
+    have := key _ rfl
+    rw [h0, List.drop_zero] at this
+    exact this
+  · rw [if_neg h0]
+    cases hsl : (bytes.take ((e + 7) / 8)).drop (s / 8) with
+    | nil =>
+      -- impossible when s < e; for s = e both sides are empty
+      have := key _ hsl.symm
+      simp only [bitsOf, List.drop_nil, List.take_nil] at this
+      simp [LReader.remaining, Reader.remaining, drop_byteBits_8, bitsOf, ← this]
+    | cons b rest =>
+      simp only [LReader.remaining, Reader.remaining]
+      have := key _ hsl.symm
+      simp only [bitsOf] at this
+      rw [← this, List.drop_append_of_le_length (by simp; omega)]
+
+#print axioms window_exact
+#print axioms Reader.readU2_spec
+#print axioms Writer.writeBitsBE_spec
+#print axioms collectBits_spec
+#print axioms write_read
 #print axioms Reader.next_spec
 #print axioms Reader.close_spec
 #print axioms Reader.readU8_spec
